@@ -154,7 +154,9 @@ func selftestModels() int {
 			}
 		}
 		if ascii {
-			got, ok = run(func(p *pinned) (string, bool) { return p.eval(mStringsTrimSpace(p.ex, []Val{p.sym(" " + in + "\n")}).(Str)) })
+			got, ok = run(func(p *pinned) (string, bool) {
+				return p.eval(mStringsTrimSpace(p.ex, []Val{p.sym(" " + in + "\n")}).(Str))
+			})
 			if want := strings.TrimSpace(" " + in + "\n"); !ok || got != want {
 				report("strings.TrimSpace", in, got, want)
 			}
